@@ -310,44 +310,43 @@ func showEvals(es []*eval) string {
 	return strings.Join(s, "; ")
 }
 
-func runCase(c Case, r *runlog.R) error {
-	var facts typeFacts
-	facts.scan(c.T)
-	for _, d := range c.Dyn {
-		facts.scan(d)
-	}
-	// D30 needs a non-nil pointer to a collection in the pre-filled value
-	facts.ptrToColl = facts.ptrToColl && nonNilPtrToColl(c.T, c.Pre)
-	// D23 needs a non-nil pointer in a tagged pointer field of the pre-filled value
-	facts.tagOnPtr = facts.tagOnPtr && nonNilTaggedPtr(c.T, c.Pre)
-	if id := facts.avoided(); id != "" {
-		r.Excluded(id)
-		r.Discard()
-		return nil
-	}
-	var opts []ucfg.Option
-	if c.VarExp {
-		opts = append(opts, ucfg.VarExp)
-	}
-	var cfg *ucfg.Config
-	// the list policy decides which pre-filled elements survive next to configured ones; twin and real
-	// target are unpacked under the same policy, so the differential holds under each of them
-	unpackOpts := opts
-	switch c.Policy {
-	case 1:
-		unpackOpts = append(append([]ucfg.Option{}, opts...), ucfg.ReplaceValues)
-	case 2:
-		unpackOpts = append(append([]ucfg.Option{}, opts...), ucfg.AppendValues)
-	case 3:
-		unpackOpts = append(append([]ucfg.Option{}, opts...), ucfg.PrependValues)
-	}
-	if err := uc.Safe("NewFrom", func() (e error) { cfg, e = ucfg.NewFrom(c.Cfg.Go(), opts...); return }); err != nil {
-		// building a configuration from plain data is not this property's subject
-		r.Class("discarded: NewFrom failed")
-		r.Discard()
-		return nil
-	}
+// recorder is the part of *runlog.R the oracle of one call reports to (a history collects the reports of its calls).
+type recorder interface {
+	Class(label string)
+	ClassIf(cond bool, label string)
+	NonTrivialIf(cond bool)
+	Discard()
+	Excluded(id string)
+}
 
+// call is one Unpack call under test: the type as the call's options make Unpack read it (T: names, flags and
+// validator tags of the selected tag sets), the configuration, the options, and the targets - a value of the real type
+// and one of the twin type (same shape and tag sets, no validator tags, no Validate methods) in the same state.
+type call struct {
+	T      *gen.TD
+	Pre    *gen.TV // the pre-filled value as data (nil: the zero value, or a target that is the result of an earlier call)
+	Cfg    *gen.Tree
+	VarExp bool
+	Policy int
+	Dyn    []*gen.TD
+	reg    dynReg
+
+	extra     []ucfg.Option                 // further options of the Unpack call (StructTag, ValidatorTag)
+	extraText string                        // ... described
+	cfg       *ucfg.Config                  // the configuration object if it exists already (nil: made from Cfg)
+	newTarget func(twin bool) reflect.Value // pointer to a target in the state before the call
+	realT     reflect.Type
+}
+
+// outcome of a call the oracle accepted.
+type outcome struct {
+	discarded  bool         // outside the property's subject (nothing was asserted)
+	cfg        *ucfg.Config // the configuration object
+	real, twin reflect.Value
+	unpacked   bool // Unpack returned nil (for both targets, with equal results)
+}
+
+func runCase(c Case, r *runlog.R) error {
 	reg, unambiguous := c.registry()
 	if !unambiguous {
 		// two dynamic types of interface-held values share a Go type but not their validators
@@ -355,15 +354,64 @@ func runCase(c Case, r *runlog.R) error {
 		r.Discard()
 		return nil
 	}
+	_, err := runCall(&call{T: c.T, Pre: c.Pre, Cfg: c.Cfg, VarExp: c.VarExp, Policy: c.Policy, Dyn: c.Dyn, reg: reg,
+		newTarget: c.newValue, realT: c.T.Type()}, r)
+	return err
+}
+
+func runCall(c *call, r recorder) (out outcome, _ error) {
+	out.discarded = true
+	var facts typeFacts
+	facts.scan(c.T)
+	for _, d := range c.Dyn {
+		facts.scan(d)
+	}
+	// D30 needs a non-nil pointer to a collection in the pre-filled value
+	facts.ptrToColl = facts.ptrToColl && (c.Pre == nil || nonNilPtrToColl(c.T, c.Pre))
+	// D23 needs a non-nil pointer in a tagged pointer field of the pre-filled value
+	facts.tagOnPtr = facts.tagOnPtr && (c.Pre == nil || nonNilTaggedPtr(c.T, c.Pre))
+	if id := facts.avoided(); id != "" {
+		r.Excluded(id)
+		r.Discard()
+		return out, nil
+	}
+	var opts []ucfg.Option
+	if c.VarExp {
+		opts = append(opts, ucfg.VarExp)
+	}
+	cfg := c.cfg
+	// the list policy decides which pre-filled elements survive next to configured ones; twin and real
+	// target are unpacked under the same policy, so the differential holds under each of them
+	unpackOpts := append([]ucfg.Option{}, opts...)
+	switch c.Policy {
+	case 1:
+		unpackOpts = append(unpackOpts, ucfg.ReplaceValues)
+	case 2:
+		unpackOpts = append(unpackOpts, ucfg.AppendValues)
+	case 3:
+		unpackOpts = append(unpackOpts, ucfg.PrependValues)
+	}
+	unpackOpts = append(unpackOpts, c.extra...)
+	if cfg == nil {
+		if err := uc.Safe("NewFrom", func() (e error) { cfg, e = ucfg.NewFrom(c.Cfg.Go(), opts...); return }); err != nil {
+			// building a configuration from plain data is not this property's subject
+			r.Class("discarded: NewFrom failed")
+			r.Discard()
+			return out, nil
+		}
+	}
+	out.cfg = cfg
+
+	reg := c.reg
 	if len(c.Dyn) > 0 && open("D60") {
 		// class of D60: a setting for an interface that holds a struct, an array or a nil map directly (not through a
 		// pointer) makes Unpack panic (it merges into the unaddressable value)
 		w0 := &walker{root: c.Cfg, varexp: c.VarExp, dyn: reg}
-		w0.walk(c.T, c.newValue(true).Elem(), pos{cfg: c.Cfg})
+		w0.walk(c.T, c.newTarget(true).Elem(), pos{cfg: c.Cfg})
 		if w0.unaddr {
 			r.Excluded("D60")
 			r.Discard()
-			return nil
+			return out, nil
 		}
 	}
 
